@@ -9,6 +9,8 @@
 (*  - the reported ground energy is one of the stored eigenvalues and the minimum over all blocks (units of 1e-6);    *)
 (*  - getEigenValues() is the concatenation of the block spectra; the eigenvalue looked up for a state label is the   *)
 (*    one stored at (block(label), position(label)) -- compared as printed 17-digit strings.                          *)
+(* A model may be given in an energy unit of 2^-k (field unit_log2; an exact rescaling of H): entries, residuals and  *)
+(* quantised energies are all logged relative to that unit, so the same conditions apply at every scale.              *)
 EXTENDS Symmetry, Hamiltonian, Json, IOUtils
 Tr == ndJsonDeserialize(IOEnv.TRACE)
 VARIABLE l
